@@ -254,7 +254,7 @@ def call_chain(ctx, src, dst, limit=8):
     return out[::-1]
 
 
-def check_zero_demand(ctx, rep, f):
+def check_zero_demand(ctx, rep, f, _depth=0):
     """In a loop `if (circuit.isFixed(i)) demands.push_back(0) else demands.push_back(area)`:
     every push into the demand vector that is dominated by isFixed==true pushes literal 0, and every
     push not dominated by a fixedness test at all is a violation."""
@@ -266,6 +266,19 @@ def check_zero_demand(ctx, rep, f):
                 oc = canon(ci["obj"])
                 if oc[0] == "var" and "demand" in str(oc[2]).lower():
                     pushes.append((x, ci))
+    if not pushes and _depth < 2:
+        # the demand vector may be built by a helper that takes the circuit and returns it
+        done = False
+        for x in walk(f.body):
+            if x.get("kind") in ("CallExpr", "CXXMemberCallExpr"):
+                _c, hs = ctx.eff.resolve_callee(x)
+                for h in hs:
+                    if h.body is not None and h.key != f.key and "vector<int" in h.type.split("(")[0] and \
+                            any("Circuit" in qt(p) for p in h.params):
+                        check_zero_demand(ctx, rep, h, _depth + 1)
+                        done = True
+        if done:
+            return
     if not pushes:
         rep.unknown("G6", f.decl, f, "demand vector construction", "no push into a demand vector found (shape changed)")
         return
